@@ -694,8 +694,9 @@ type c09View struct {
 	RawPath string      `json:"rawpath"`
 	Query   string      `json:"query"`
 	IPs     []string    `json:"ips"`
-	Hdrs    [][2]string `json:"hdrs"` // the complete Headers() map: key, joined values (sorted by key)
-	OK      bool        `json:"ok"`   // Path == PathUnescape(RawPath), URL.String() fits the components, Header(n) == Headers()[n] for the probes
+	Hdrs    [][2]string `json:"hdrs"`   // the complete Headers() map: key, joined values (sorted by key)
+	Probes  [][2]string `json:"probes"` // Header(n) for the seven names (asked in assorted casings) where not empty
+	OK      bool        `json:"ok"`     // Path == PathUnescape(RawPath), URL.String() is made of the components shown
 }
 
 type c09Up struct {
@@ -745,14 +746,15 @@ func c09DecodeView(raw []byte) (*c09View, error) {
 		out.OK = false
 	}
 
-	probes := append(append([]string{}, fwdNames...), "X-Custom")
-	single := []string{v.H0, v.H1, v.H2, v.H3, v.H4, v.H5, v.H6, v.Hc}
+	single := []string{v.H0, v.H1, v.H2, v.H3, v.H4, v.H5, v.H6}
 
-	for i, n := range probes {
-		if single[i] != v.Hdrs[n] {
-			out.OK = false
+	for i, n := range fwdNames {
+		if single[i] != "" {
+			out.Probes = append(out.Probes, [2]string{n, single[i]})
 		}
 	}
+
+	_ = v.Hc
 
 	for _, k := range assembly.SortedKeys(v.Hdrs) {
 		out.Hdrs = append(out.Hdrs, [2]string{k, v.Hdrs[k]})
@@ -1235,7 +1237,7 @@ type c09Oracle struct {
 	host     string
 	sent     [][2]string // header lines as sent
 	parsed   [][2]string // net/http's parse: canonical key, value (sorted by key, arrival order per key)
-	uri      *[2]string
+	uri      *[3]string // url.Parse(X-Forwarded-Uri): EscapedPath(), Query().Encode(), RawQuery
 	parseErr string
 }
 
@@ -1270,7 +1272,7 @@ func c09OracleOf(c c09Case) c09Oracle {
 
 	if val := req.Header.Get("X-Forwarded-Uri"); val != "" {
 		if u, err := url.Parse(val); err == nil {
-			o.uri = &[2]string{u.EscapedPath(), u.Query().Encode()}
+			o.uri = &[3]string{u.EscapedPath(), u.Query().Encode(), u.RawQuery}
 		}
 	}
 
@@ -1286,7 +1288,7 @@ func c09CoqObs(o c09Obs) string {
 	if o.View != nil {
 		v := o.View
 		view = "(Some " + vf.CoqApp("vw", c09Str(v.Method), c09Str(v.Scheme), c09Str(v.Host), c09Str(v.RawPath),
-			c09Str(v.Query), c09Strs(v.IPs), c09CoqPairs(v.Hdrs), vf.CoqBool(v.OK)) + ")"
+			c09Str(v.Query), c09Strs(v.IPs), c09CoqPairs(v.Hdrs), c09CoqPairs(v.Probes), vf.CoqBool(v.OK)) + ")"
 	}
 
 	up := "None"
@@ -1309,7 +1311,7 @@ func c09CoqOptList(l *[]string) string {
 func c09Coq(c c09Case, loadedOK bool, or c09Oracle, o c09Obs) string {
 	uri := "None"
 	if or.uri != nil {
-		uri = "(Some " + vf.CoqPair(c09Str(or.uri[0]), c09Str(or.uri[1])) + ")"
+		uri = "(Some " + vf.CoqPair(vf.CoqPair(c09Str(or.uri[0]), c09Str(or.uri[1])), c09Str(or.uri[2])) + ")"
 	}
 
 	split := "None"
